@@ -147,14 +147,19 @@ def attack_state(v, name, initiator, tier, rnd, stats):
             key = (name, 'initiator' if sa.is_initiator else 'responder', sa.state.name)
             stats['states'].add(key)
             w.now += 3.0          # so that a moved liveness timer is visible
-            for label, data in menu(w, e, sa, authentic, tier, rnd):
+            items = list(menu(w, e, sa, authentic, tier, rnd))
+            # the same forgeries from an address that is not the peer's (an off-path sender knows the SPIs, not the address): every 5th of the menu
+            items += [(label + ' [from another address]', data, 'C') for label, data in items[::5]]
+            for item in items:
+                label, data = item[0], item[1]
+                src = item[2] if len(item) > 2 else w.peer_of(e)
                 if authentic and label.startswith('bitflip'):
                     # flipping a bit of the *header* may produce a datagram for another SPI / a cleartext-looking one; whatever it
                     # becomes, it is not protected under the peer's keys any more: the oracle is the same
                     pass
                 before = probes.world_snapshot(w, with_dpd=True)
                 try:
-                    reply = w.dispatch(e, data, w.peer_of(e))
+                    reply = w.dispatch(e, data, src)
                 except wd.Escape as ex:
                     # whether the *loop* survives an escaping protocol error is C17; here it counts as "no reply"
                     if type(ex.ex).__name__ in ('InvalidSyntax', 'UnsupportedCriticalPayload'):
